@@ -1,4 +1,232 @@
-import TensorModel.Run
-/-! C19 — property theorems. -/
+/-
+  C19 — "No sequence of operations - including handing finished tensors back to the library's pools -
+  ever changes the shape, strides, mask or elements of a different live tensor … The library never
+  mutates, retains or recycles slices passed in by the caller …"
+
+  Check:  (cd /verif/lean && lake build TensorModel.Props.C19)
+
+  The logic of the claim over the ownership state machine of `TensorModel.Own` (slice identities,
+  who owns them, what the pool hands out):
+
+  * `inv_init`, `inv_step`, `inv_run`   the ownership invariant `Inv` holds initially, is preserved
+                                        by every disciplined event, hence after disciplined histories
+                                        of any length;
+  * `no_corruption`                     under `Inv`, what `BorrowInts` hands out is neither the
+                                        caller's nor referenced by a live tensor; writing through it
+                                        is within the discipline and changes neither a live tensor's
+                                        metadata slices nor a caller's slice;
+  * `other_tensors_untouched`           along a disciplined history, the slices of live tensor `k`
+                                        keep their contents and stay `k`'s as long as no event is
+                                        about `k` itself (write with destination `k`, detach,
+                                        `ReturnTensor k`) — whatever happens to other tensors,
+                                        including their return to the pools;
+  * `caller_slices_untouched`           … and a caller-owned slice keeps its contents unless the
+                                        caller itself writes it, and stays the caller's;
+  * `checkTrace_sound`                  the executable trace checker accepts only histories that end
+                                        in `Inv` (and is complete for the discipline:
+                                        `checkTrace_complete`);
+  * defect witnesses as histories       `oldTUT` (T(axes…);UT() before the fix "T() and SafeT() keep
+                                        their own copy of the axes"), `doubleReturn`, and the
+                                        `ShallowClone` sharing pattern.
+
+  The runtime half — that the library's actual sequence of BorrowInts/ReturnInts/attach events *is*
+  disciplined — is checked by replaying hook traces of the Go tests through `checkTrace`.
+-/
+import TensorModel.Proofs.Own
 namespace TM.C19
+open TM.Own
+
+theorem inv_init : Inv init := TM.Own.inv_init
+
+theorem inv_step {st : State} {e : Event} (hI : Inv st) (hd : disciplined st e = true) :
+    Inv (step st e) := TM.Own.inv_step hI hd
+
+/-- every disciplined history, of any length, ends in a state satisfying the invariant -/
+theorem inv_run (h : List Event) (hd : Disciplined init h) : Inv (run h) :=
+  inv_runFrom h init TM.Own.inv_init hd
+
+/-- Under `Inv`, a `borrow` never yields a slice that is caller-owned or referenced by a live
+    tensor; writing through the borrowed slice is disciplined (for any destination) and changes
+    neither a live tensor's metadata nor a caller's slice. -/
+theorem no_corruption {st : State} {s : Sid} (hI : Inv st) (hb : disciplined st (.borrow s) = true) :
+    s ∉ st.callerOwned ∧ (∀ k, (k, s) ∉ st.refs) ∧
+    (∀ dst v, disciplined (step st (.borrow s)) (.write s dst v) = true) ∧
+    (∀ dst v x, (x ∈ st.callerOwned ∨ ∃ k, (k, x) ∈ st.refs) →
+        (step (step st (.borrow s)) (.write s dst v)).data x = st.data x) := by
+  have hs := disc_borrow.1 hb
+  have h1 := hI.poolCaller s hs
+  have h2 := hI.poolRef s hs
+  refine ⟨h1, h2, fun dst v => ?_, fun dst v x hx => ?_⟩
+  · refine disc_write.2 ⟨hI.nodupPool.not_mem_erase, h1, fun k hk => absurd hk (h2 k)⟩
+  · have hne : x ≠ s := by
+      rintro rfl
+      rcases hx with hx | ⟨k, hk⟩
+      · exact h1 hx
+      · exact h2 k hk
+    simp [step, setD, hne]
+
+/-- No sequence of (disciplined) operations that are not about slice `s` of live tensor `k` changes
+    the contents of `s` or detaches it from `k` — including `ReturnTensor` of other tensors and any
+    traffic through the pools. -/
+theorem other_tensors_untouched (h g : List Event) (k : Nat) (s : Sid)
+    (hd : Disciplined init (h ++ g)) (hr : (k, s) ∈ (run h).refs)
+    (hg : ∀ e ∈ g, touches k s e = false) :
+    (run (h ++ g)).data s = (run h).data s ∧ (k, s) ∈ (run (h ++ g)).refs := by
+  have hsplit : ∀ (h g : List Event) (st : State), Disciplined st (h ++ g) →
+      Disciplined st h ∧ Disciplined (runFrom st h) g := by
+    intro h; induction h with
+    | nil => intro g st hd; exact ⟨trivial, hd⟩
+    | cons e h ih => intro g st hd; exact ⟨⟨hd.1, (ih g _ hd.2).1⟩, (ih g _ hd.2).2⟩
+  obtain ⟨hd1, hd2⟩ := hsplit h g init hd
+  simp only [run, runFrom_append]
+  exact live_slice_stable_run g _ k s (inv_runFrom h init TM.Own.inv_init hd1) hd2 hr hg
+
+/-- The library never mutates a caller's slice and never takes it away from the caller. -/
+theorem caller_slices_untouched (h g : List Event) (s : Sid)
+    (hd : Disciplined init (h ++ g)) (hs : s ∈ (run h).callerOwned)
+    (hg : ∀ e ∈ g, isCallerWrite s e = false) :
+    (run (h ++ g)).data s = (run h).data s ∧ s ∈ (run (h ++ g)).callerOwned := by
+  have hsplit : ∀ (h g : List Event) (st : State), Disciplined st (h ++ g) →
+      Disciplined st h ∧ Disciplined (runFrom st h) g := by
+    intro h; induction h with
+    | nil => intro g st hd; exact ⟨trivial, hd⟩
+    | cons e h ih => intro g st hd; exact ⟨⟨hd.1, (ih g _ hd.2).1⟩, (ih g _ hd.2).2⟩
+  obtain ⟨hd1, hd2⟩ := hsplit h g init hd
+  simp only [run, runFrom_append]
+  exact caller_slice_stable_run g _ s (inv_runFrom h init TM.Own.inv_init hd1) hd2 hs hg
+
+/-- … and never retains or recycles it: after a disciplined history a caller-owned slice is neither
+    in the pool, nor held by the library, nor referenced by a tensor. -/
+theorem caller_slices_not_retained (h : List Event) (hd : Disciplined init h) (s : Sid)
+    (hs : s ∈ (run h).callerOwned) :
+    s ∉ (run h).pooled ∧ s ∉ (run h).held ∧ ∀ k, (k, s) ∉ (run h).refs :=
+  have hI := inv_run h hd
+  ⟨fun hp => hI.poolCaller s hp hs, hI.callerHeld s hs, hI.callerRef s hs⟩
+
+theorem checkTraceR_sound (h : List Event) (hc : checkTraceR h = none) : Disciplined init h :=
+  checkFrom_sound h init 0 hc
+
+/-- the trace checker accepts only histories that end in a state satisfying `Inv` -/
+theorem checkTrace_sound (h : List Event) (hc : checkTrace h = none) : Inv (run h) := by
+  apply inv_run h (checkTraceR_sound h _)
+  simpa [checkTrace] using hc
+
+/-- … and rejects no disciplined history -/
+theorem checkTrace_complete (h : List Event) (hd : Disciplined init h) : checkTrace h = none := by
+  simp [checkTrace, checkTraceR, checkFrom_complete h init 0 hd]
+
+/-! ### non-vacuity: concrete instances meeting the hypotheses -/
+
+/-- the *fixed* `t.T(axes…); t.UT()`: the caller's axes (slice 1) are copied into a borrowed slice
+    (2), which is what tensor 10 keeps and what `UT` later recycles; then an unrelated tensor 11 is
+    built from the recycled slice and returned to the pool -/
+def fixedTUT : List Event :=
+  [.callerPass 1, .alloc 2, .write 2 none 7, .attach 10 2,      -- T(axes…)
+   .detach 10 2, .ret 2,                                         -- UT()
+   .borrow 2, .write 2 (some 11) 3, .attach 11 2, .kill 11]      -- somebody else's tensor
+
+example : checkTrace fixedTUT = none := by decide
+example : Disciplined init fixedTUT := checkTraceR_sound _ (by decide)
+example : Inv (run fixedTUT) := checkTrace_sound _ (by decide)
+
+-- `inv_step` / `no_corruption`: a state with a pooled slice, a live tensor and a caller slice
+example : disciplined (run [.alloc 1, .ret 1, .alloc 2, .attach 10 2, .callerPass 3]) (.borrow 1) = true := by
+  decide
+
+-- `other_tensors_untouched`: tensor 10 refers to slice 2; tensor 11 is created and returned
+example : Disciplined init ([.alloc 2, .write 2 (some 10) 5, .attach 10 2] ++
+      [.alloc 3, .attach 11 3, .kill 11, .borrow 3, .write 3 none 9, .ret 3]) ∧
+    (10, 2) ∈ (run [.alloc 2, .write 2 (some 10) 5, .attach 10 2]).refs ∧
+    (∀ e ∈ [Event.alloc 3, .attach 11 3, .kill 11, .borrow 3, .write 3 none 9, .ret 3],
+        touches 10 2 e = false) :=
+  ⟨checkTraceR_sound _ (by decide), by decide, by decide⟩
+
+-- `caller_slices_untouched`
+example : Disciplined init ([.callerPass 1, .callerWrite 1 7] ++ [.alloc 2, .write 2 none 7, .attach 10 2,
+      .detach 10 2, .ret 2]) ∧ 1 ∈ (run [.callerPass 1, .callerWrite 1 7]).callerOwned ∧
+    (∀ e ∈ [Event.alloc 2, .write 2 none 7, .attach 10 2, .detach 10 2, .ret 2],
+        isCallerWrite 1 e = false) :=
+  ⟨checkTraceR_sound _ (by decide), by decide, by decide⟩
+
+/-! ### defect witnesses, as histories
+
+  (a) The old behaviour of `t.T(axes…); t.UT()` (fixed in /repo by "T() and SafeT() keep their own
+      copy of the axes"): `T` stored the caller's variadic slice in `t.transposeWith`, `UT` handed
+      it to `ReturnInts`, which zeroed it and pooled it. -/
+
+def oldTUT : List Event := [.callerPass 1, .attach 10 1, .detach 10 1, .ret 1]
+
+/-- The history contains two violations: the retention (index 1) and the recycling (index 3) of the
+    caller's slice. `checkTrace` reports the first one; `violations` lists both. -/
+theorem oldTUT_rejected :
+    checkTrace oldTUT = some (1, "retains a caller-owned slice in a tensor (must copy)") ∧
+    violations oldTUT = [(1, .attachCallerOwned), (3, .retCallerOwned)] := by
+  constructor <;> rfl
+
+/-- What a *pool* hook sees of it (it observes the caller's slice and `ReturnInts`, not the tensor's
+    fields) is rejected with exactly the reason "returns a caller-owned slice". -/
+theorem oldTUT_pool_view_rejected :
+    checkTrace [.callerPass 1, .ret 1] = some (1, "returns a caller-owned slice") := by rfl
+
+/-- after it the caller's slice sits in the pool: `Inv` is violated … -/
+theorem oldTUT_breaks_inv : ¬ Inv (run oldTUT) :=
+  fun h => h.poolCaller 1 (by decide) (by decide)
+
+/-- … `ReturnInts` has zeroed the caller's slice (here: the caller had stored 7 in it) … -/
+theorem oldTUT_mutates_caller :
+    (run [.callerPass 1, .callerWrite 1 7]).data 1 = 7 ∧
+    (run ([.callerPass 1, .callerWrite 1 7] ++ oldTUT.tail)).data 1 = 0 := by
+  constructor <;> rfl
+
+/-- … and the next `BorrowInts` hands the caller's slice to a new tensor 11 as its shape: the
+    caller's later (perfectly legitimate) write through its own slice changes tensor 11's metadata. -/
+theorem oldTUT_corrupts_later :
+    let st := run (oldTUT ++ [.borrow 1, .write 1 (some 11) 3, .attach 11 1])
+    (11, 1) ∈ st.refs ∧ 1 ∈ st.callerOwned ∧ ¬ Inv st ∧
+    disciplined st (.callerWrite 1 99) = true ∧
+    st.data 1 = 3 ∧ (step st (.callerWrite 1 99)).data 1 = 99 := by
+  refine ⟨by decide, by decide, fun h => h.callerRef 1 (by decide) 11 (by decide), by decide, rfl, rfl⟩
+
+/-! (b) double return: the same slice is handed to `ReturnInts` twice; the pool then hands it out
+    twice, and a scratch slice of the library aliases live tensor 10's shape. -/
+
+def doubleReturn : List Event := [.alloc 1, .ret 1, .ret 1]
+
+theorem doubleReturn_rejected :
+    checkTrace doubleReturn =
+      some (2, "returns a slice that is already in the pool (double return)") := by rfl
+
+theorem doubleReturn_breaks_inv : ¬ Inv (run doubleReturn) :=
+  fun h => absurd h.nodupPool (by decide)
+
+theorem doubleReturn_corrupts_later :
+    let st := run (doubleReturn ++ [.borrow 1, .write 1 (some 10) 4, .attach 10 1, .borrow 1])
+    (10, 1) ∈ st.refs ∧ 1 ∈ st.held ∧ ¬ Inv st ∧
+    st.data 1 = 4 ∧ (step st (.write 1 none 0)).data 1 = 0 := by
+  refine ⟨by decide, by decide, fun h => h.heldRef 1 (by decide) 10 (by decide), rfl, rfl⟩
+
+/-! (c) the sharing pattern of `(*Dense).ShallowClone` (dense.go: `retVal.old = t.old;
+    retVal.transposeWith = t.transposeWith`): the clone 11 of a transposed tensor 10 refers to the
+    *same* `old.shape` / `transposeWith` slices. The discipline rejects the sharing; if it is
+    allowed, `ReturnTensor(clone)` recycles slices tensor 10 still refers to. Reproduced at run time:
+    `a.T(1,2,0); c := a.ShallowClone(); ReturnTensor(c); a.UT()` leaves `a.Shape() = (0, 0, 0)`
+    (the clone's `old.zero()` zeroes and pools `a.old.shape`). -/
+
+def shallowCloneShare : List Event :=
+  [.alloc 1, .attach 10 1,     -- t.T(…): t.old.shape / t.transposeWith = slice 1
+   .attach 11 1,               -- c := t.ShallowClone()
+   .kill 11]                   -- ReturnTensor(c)
+
+theorem shallowCloneShare_rejected :
+    checkTrace shallowCloneShare = some (2, "shares a slice between two live tensors") := by rfl
+
+theorem shallowCloneShare_corrupts :
+    (10, 1) ∈ (run shallowCloneShare).refs ∧ 1 ∈ (run shallowCloneShare).pooled ∧
+    ¬ Inv (run shallowCloneShare) :=
+  ⟨by decide, by decide, fun h => h.poolRef 1 (by decide) 10 (by decide)⟩
+
+/-- the discipline cannot be dropped from `inv_run` -/
+theorem inv_needs_discipline : ¬ (∀ h : List Event, Inv (run h)) :=
+  fun h => oldTUT_breaks_inv (h oldTUT)
+
 end TM.C19
